@@ -1,7 +1,8 @@
 #!/bin/bash
 # survey.sh <runs> <props...> : run checks, then show minimised replays
 cd /verif
-find /verif/out/replays -name '*.json' -delete 2>/dev/null
+export VERIF_OUT=${VERIF_OUT:-/verif/out}
+find $VERIF_OUT/replays -name '*.json' -delete 2>/dev/null
 runs=$1; shift
 for p in "$@"; do VERIF_RUNS=$runs VERIF_MAX_REPORTS=30 VERIF_SHRINK=150 timeout 1500 ./check $p quick 2>&1 | grep -E "quick:|HARNESS" | cut -c1-400; done
-ls out/replays 2>/dev/null | grep -v orig | sed 's/^/out\/replays\//' | xargs -r tools/showreplay.py 2>&1 | grep -v WARNING | cut -c1-${WIDTH:-500}
+ls $VERIF_OUT/replays/*.json 2>/dev/null | grep -v orig | xargs -r tools/showreplay.py 2>&1 | grep -v WARNING | cut -c1-${WIDTH:-500}
